@@ -115,7 +115,12 @@ func (f *File) readDataDesc() error {
 	if desc.Signature != dataDescriptorSignature {
 		return errors.New("data descriptor signature is missing")
 	}
-	if f.UncompressedSize >= uint32Max || desc.UncompressedSize != uint32(f.UncompressedSize) || desc.CompressedSize != uint32(f.CompressedSize) {
+	// For an empty member the uncompressed size is zero and a 16-byte descriptor is a
+	// prefix of the 24-byte one; the header's version-needed field tells them
+	// apart (ZIP64 descriptors are what this package itself writes for
+	// version 4.5 members).
+	ambiguous64 := f.UncompressedSize == 0 && f.lfh.ReaderVersion >= zip45
+	if ambiguous64 || f.UncompressedSize >= uint32Max || desc.UncompressedSize != uint32(f.UncompressedSize) || desc.CompressedSize != uint32(f.CompressedSize) {
 		// 64-bit
 		if _, err := f.r.ReadAt(f.ddb[dataDescriptorLen:], pos+dataDescriptorLen); err != nil {
 			return err
